@@ -343,28 +343,36 @@ func genBlock(r *hx.Rand, a *asm, w *world, self int, depthBudget int) {
 		for i := 0; i < n; i++ {
 			a.op(0x50)
 		}
-	case k < 96: // calls
+	case k < 89: // calls
 		if depthBudget <= 0 {
 			a.op(0x5b)
 			return
 		}
 		genCall(r, a, w, self)
-	case k < 98: // out of model (observed for no-panic / failed-frame / static only)
-		switch r.Intn(7) {
+	case k < 98: // account reads, hashing, creation, precompile / BLOCKHASH (the last two stay outside the model)
+		switch r.Intn(12) {
 		case 0:
-			a.push(smallLen(r)).push(memOffset(r)).op(0x20, 0x50) // SHA3
+			a.push(smallLen(r)).push(memOffset(r)).op(0x20).pushU(uint64(r.Intn(4))).op(0x55) // SHA3 -> slot
 		case 1:
-			a.op(0x30, 0x31, 0x50) // BALANCE
+			a.push(someAddress(r, w)).op(0x31).pushU(uint64(r.Intn(4))).op(0x55) // BALANCE
 		case 2:
-			a.op(0x30, 0x3b, 0x50) // EXTCODESIZE
+			a.push(someAddress(r, w)).op(0x3b).pushU(uint64(r.Intn(4))).op(0x55) // EXTCODESIZE
 		case 3:
-			a.pushU(0).pushU(0).pushU(0).op(0xf0, 0x50) // CREATE
+			a.push(someAddress(r, w)).op(0x3f).pushU(uint64(r.Intn(4))).op(0x55) // EXTCODEHASH
 		case 4:
-			a.op(0x47, 0x50) // SELFBALANCE
+			a.push(smallLen(r)).push(smallLen(r)).push(memOffset(r)).push(someAddress(r, w)).op(0x3c) // EXTCODECOPY
 		case 5:
-			a.pushU(uint64(r.Intn(1100))).op(0x40, 0x50) // BLOCKHASH
-		default:
+			a.op(0x47).pushU(uint64(r.Intn(4))).op(0x55) // SELFBALANCE
+		case 6, 7, 8:
+			if depthBudget > 0 {
+				genCreate(r, a, w)
+			}
+		case 9:
+			a.pushU(uint64(r.Intn(3))).op(0x40, 0x50) // BLOCKHASH
+		case 10:
 			a.pushU(0).pushU(0).pushU(32).pushU(0).pushU(uint64(1 + r.Intn(9))).pushU(100000).op(0xfa, 0x50) // precompile
+		default:
+			a.push(someAddress(r, w)).op(0xff) // SELFDESTRUCT
 		}
 	default: // early terminator
 		genEnd(r, a)
@@ -387,7 +395,11 @@ func genEnd(r *hx.Rand, a *asm) {
 
 func genCall(r *hx.Rand, a *asm, w *world, self int) {
 	var target *big.Int
-	switch t := r.Intn(20); {
+	switch t := r.Intn(22); {
+	case t == 20:
+		target = bigHex(eoaHex)
+	case t == 21:
+		target = new(big.Int).SetBytes(newAddrs[r.Intn(3)][:]) // possibly created earlier in this run
 	case t == 0:
 		target = bigHex("dead00000000000000000000000000000000beef") // no such account
 	case t == 1:
@@ -406,9 +418,12 @@ func genCall(r *hx.Rand, a *asm, w *world, self int) {
 	}
 	a.push(retSize).push(retOff).push(inSize).push(inOff)
 	if kind == 0xf1 || kind == 0xf2 {
-		if r.Chance(1, 40) {
-			a.pushU(1) // value-bearing: out of model (or write protection under static)
-		} else {
+		switch v := r.Intn(40); {
+		case v < 6:
+			a.pushU(uint64(1 + r.Intn(5))) // value-bearing (write protection under static)
+		case v == 6:
+			a.pushU(uint64(2000 + r.Intn(1000))) // more than any contract owns
+		default:
 			a.pushU(0)
 		}
 	}
@@ -437,6 +452,100 @@ func genCall(r *hx.Rand, a *asm, w *world, self int) {
 		if r.Bool() {
 			a.op(0x3d).pushU(0).pushU(uint64(32 * r.Intn(4))).op(0x3e) // RETURNDATACOPY(mem, 0, size)
 		}
+	}
+}
+
+func someAddress(r *hx.Rand, w *world) *big.Int {
+	switch r.Intn(8) {
+	case 0:
+		return bigHex("dead00000000000000000000000000000000beef")
+	case 1:
+		return bigHex(eoaHex)
+	case 2:
+		return bigHex(originHex)
+	case 3:
+		return new(big.Int).SetBytes(newAddrs[r.Intn(3)][:])
+	default:
+		return bigHex(w.addrs[r.Intn(len(w.addrs))])
+	}
+}
+
+// storeBytes writes b into memory at off (32-byte chunks, the last one zero padded on the right)
+func storeBytes(a *asm, b []byte, off int) {
+	for i := 0; i < len(b); i += 32 {
+		chunk := make([]byte, 32)
+		copy(chunk, b[i:])
+		a.pushN(32, new(big.Int).SetBytes(chunk)).pushU(uint64(off + i)).op(0x52)
+	}
+}
+
+// genInit: an init code; runtime codes are small programs without calls
+func genInit(r *hx.Rand, w *world) []byte {
+	in := newAsm()
+	switch r.Intn(12) {
+	case 0:
+		return nil // empty init code
+	case 1:
+		in.pushU(uint64(r.Intn(9))).pushU(uint64(r.Intn(3))).op(0x55).pushU(uint64(r.Intn(40))).pushU(0).op(0xfd) // write, REVERT
+	case 2:
+		in.pushU(0xef).pushU(0).op(0x53).pushU(uint64(1 + r.Intn(3))).pushU(0).op(0xf3) // code starting with 0xEF
+	case 3:
+		in.pushU(uint64(24570 + r.Intn(12))).pushU(0).op(0xf3) // around the code size limit
+	case 4:
+		in.pushU(1).pushU(0).op(0x55).op(0xfe) // write, INVALID
+	case 5:
+		in.push(someAddress(r, w)).op(0xff) // SELFDESTRUCT inside the init code
+	default:
+		rt := genContract(r, w, 0, 1+r.Intn(2), 0)
+		if len(rt) > 200 {
+			rt = rt[:200]
+		}
+		if r.Bool() {
+			in.pushU(uint64(1 + r.Intn(9))).pushU(uint64(r.Intn(3))).op(0x55) // constructor write
+		}
+		if r.Chance(1, 3) {
+			in.pushU(0).pushU(0).op(0xa0) // constructor log
+		}
+		// CODECOPY(0, <offset of runtime>, len) RETURN(0, len): fixed-width pushes so that the offset is known
+		hdr := len(in.b) + 3 + 3 + 2 + 1 + 3 + 2 + 1
+		in.pushN(2, big.NewInt(int64(len(rt)))).pushN(2, big.NewInt(int64(hdr))).pushN(1, big.NewInt(0)).op(0x39)
+		in.pushN(2, big.NewInt(int64(len(rt)))).pushN(1, big.NewInt(0)).op(0xf3)
+		in.b = append(in.b, rt...)
+	}
+	return in.bytes()
+}
+
+func genCreate(r *hx.Rand, a *asm, w *world) {
+	init := genInit(r, w)
+	off := 32 * r.Intn(4)
+	storeBytes(a, init, off)
+	two := r.Chance(1, 3)
+	if two {
+		a.pushU(uint64(r.Intn(3))) // salt: repeats lead to collisions
+	}
+	a.pushU(uint64(len(init))).pushU(uint64(off))
+	switch v := r.Intn(10); {
+	case v < 2:
+		a.pushU(uint64(1 + r.Intn(4)))
+	case v == 2:
+		a.pushU(5000) // more than the creator owns
+	default:
+		a.pushU(0)
+	}
+	if two {
+		a.op(0xf5)
+	} else {
+		a.op(0xf0)
+	}
+	switch r.Intn(4) {
+	case 0:
+		a.op(0x50)
+	case 1:
+		a.pushU(uint64(4 + r.Intn(3))).op(0x55) // remember the address
+	default: // call the new contract
+		a.op(0x80).pushU(uint64(r.Intn(3))).op(0x55) // DUP1 slot SSTORE
+		a.pushU(32).pushU(0).pushU(0).pushU(0).pushU(uint64(r.Intn(2))).op(0x85, 0x5a, 0xf1) // ... value DUP6(addr) GAS CALL
+		a.pushU(5).op(0x55).op(0x50)
 	}
 }
 
@@ -555,6 +664,17 @@ func genProgCase(r *hx.Rand) *Case {
 		c.Contracts = append(c.Contracts, Contract{Addr: contractBHex, Code: hx.Hex(genContract(r, w, 1, 2+r.Intn(6), 1))})
 	}
 	c.Storage = genStorage(r, w)
+	for i := range c.Contracts {
+		if r.Bool() {
+			c.Contracts[i].Bal = big.NewInt(int64(r.Intn(1000))).Text(16)
+		}
+	}
+	if r.Chance(1, 3) {
+		c.Contracts = append(c.Contracts, Contract{Addr: eoaHex, Bal: big.NewInt(int64(1 + r.Intn(50))).Text(16)})
+	}
+	if r.Chance(1, 5) {
+		c.Value = big.NewInt(int64(1 + r.Intn(9))).Text(16)
+	}
 	return c
 }
 
